@@ -44,7 +44,8 @@ void basic_ga_search<T, ES, F>::tune_parameters()
   search<T, ES>::tune_parameters();
 
   if (this->prob_.env.min_individuals < 10)
-    this->prob_.env.min_individuals = 10;
+    this->prob_.env.min_individuals = std::min(10u,
+                                               this->prob_.env.individuals);
 
   Ensures(this->prob_.env.is_valid(true));
 }
